@@ -11,6 +11,7 @@
 #include <primitives/transaction.h>
 #include <random.h>
 #include <script/script.h>
+#include <streams.h>
 #include <uint256.h>
 
 #include <map>
@@ -31,6 +32,7 @@ struct Universe {
     std::vector<std::string> parent_names;
     std::map<std::string, CTransactionRef> parents;
     std::map<std::string, COutPoint> outs;
+    std::map<std::string, std::set<std::string>> spends;   // modelled inputs per orphan
 };
 
 uint256 Tag(uint8_t a, uint8_t b, uint8_t c)
@@ -87,7 +89,8 @@ std::shared_ptr<const Universe> BuildUniverse(const UniValue& u)
         const int64_t w = a["w"].getInt<int64_t>();
         const size_t nin = a["nin"].getInt<int>();
         std::vector<COutPoint> spends;
-        for (size_t k = 0; k < a["spends"].size(); ++k) spends.push_back(U->outs.at(a["spends"][k].get_str()));
+        for (size_t k = 0; k < a["spends"].size(); ++k) { spends.push_back(U->outs.at(a["spends"][k].get_str())); U->spends[name].insert(a["spends"][k].get_str()); }
+        U->spends[name];
         if (spends.size() > nin || nin == 0) throw std::runtime_error("universe: nin of " + name + " smaller than its modelled inputs");
         CMutableTransaction found;
         bool ok = false;
@@ -135,6 +138,20 @@ std::shared_ptr<const Universe> GetUniverse(const UniValue& u)
     return cache[key] = BuildUniverse(u);
 }
 
+// What a caller holds after receiving the transaction's bytes once more (from another peer, in a block ...): equal content, a separately
+// allocated object. The adapter never hands the same CTransactionRef to the orphanage twice: nothing in the interface promises
+// that all announcements of an orphan share one object, and code that relies on pointer identity must not pass unnoticed.
+CTransactionRef Received(const CTransaction& tx)
+{
+    DataStream s;
+    s << TX_WITH_WITNESS(tx);
+    CMutableTransaction m;
+    s >> TX_WITH_WITNESS(m);
+    CTransactionRef r = MakeTransactionRef(std::move(m));
+    if (r->GetWitnessHash() != tx.GetWitnessHash() || r->GetHash() != tx.GetHash()) throw std::runtime_error("serialization round trip changed the transaction");
+    return r;
+}
+
 struct World {
     std::shared_ptr<const Universe> U;
     std::unique_ptr<node::TxOrphanage> orph;
@@ -152,7 +169,7 @@ struct World {
     UniValue Call(node::TxOrphanage& o, const UniValue& a, int seed) const
     {
         const std::string op = a[0].get_str();
-        if (op == "addtx") return o.AddTx(U->txs.at(a[1].get_str()), a[2].getInt<int>()) ? "true" : "false";
+        if (op == "addtx") return o.AddTx(Received(*U->txs.at(a[1].get_str())), a[2].getInt<int>()) ? "true" : "false";
         if (op == "addannouncer") return o.AddAnnouncer(U->txs.at(a[1].get_str())->GetWitnessHash(), a[2].getInt<int>()) ? "true" : "false";
         if (op == "erasetx") return o.EraseTx(U->txs.at(a[1].get_str())->GetWitnessHash()) ? "true" : "false";
         if (op == "eraseforpeer") { o.EraseForPeer(a[1].getInt<int>()); return "none"; }
@@ -166,13 +183,23 @@ struct World {
             for (size_t i = 0; i < a[1].size(); ++i) t2.vin.emplace_back(U->outs.at(a[1][i].get_str()));
             t1.vout.emplace_back(1, CScript() << OP_TRUE); t2.vout.emplace_back(2, CScript() << OP_TRUE);
             block.vtx.push_back(MakeTransactionRef(t1));
-            if (!t2.vin.empty()) block.vtx.push_back(MakeTransactionRef(t2));
+            // if the listed outpoints are exactly the modelled inputs of an orphan, the block includes that orphan itself (as received
+            // with the block: a separate object), otherwise a transaction conflicting with the orphans
+            CTransactionRef included;
+            std::set<std::string> listed;
+            for (size_t i = 0; i < a[1].size(); ++i) listed.insert(a[1][i].get_str());
+            for (const auto& n : U->tx_names) {
+                if (!included && U->spends.at(n) == listed) included = Received(*U->txs.at(n));
+            }
+            if (included) block.vtx.push_back(included);
+            else if (!t2.vin.empty()) block.vtx.push_back(MakeTransactionRef(t2));
             o.EraseForBlock(block);
             return "none";
         }
         if (op == "addchildren") {
             FastRandomContext rng{uint256{static_cast<uint8_t>(seed)}};
-            const auto ret = o.AddChildrenToWorkSet(*U->parents.at(a[1].get_str()), rng);
+            const CTransactionRef parent = Received(*U->parents.at(a[1].get_str()));
+            const auto ret = o.AddChildrenToWorkSet(*parent, rng);
             // the order of the returned pairs is not part of the interface: list them in the universe's order
             std::map<std::string, std::vector<int64_t>> got;
             for (const auto& [w, peer] : ret) got[NameOf(w)].push_back(peer);
